@@ -38,6 +38,7 @@ const (
 	tRType               // a reflect.Type whose Kind() is the known kind
 	tInt                 // an untyped integer constant
 	tInstr               // emitter result
+	tStr                 // Lean term of type Bytes (a Go string)
 )
 
 type value struct {
@@ -94,11 +95,11 @@ func goIntType(name string) (w int, signed bool, ok bool) {
 		return 8, true, true
 	case "int16":
 		return 16, true, true
-	case "int32":
+	case "int32", "rune":
 		return 32, true, true
 	case "uint", "uint64", "uintptr":
 		return 64, false, true
-	case "uint8":
+	case "uint8", "byte":
 		return 8, false, true
 	case "uint16":
 		return 16, false, true
@@ -236,6 +237,13 @@ func (it *interp) eval(e ast.Expr) *value {
 			case "strconv":
 				if e.Sel.Name == "IntSize" {
 					return &value{tag: tInt, n: 64} // amd64
+				}
+			case "unicode":
+				switch e.Sel.Name {
+				case "ReplacementChar":
+					return &value{tag: tInt, n: 0xFFFD}
+				case "MaxRune":
+					return &value{tag: tInt, n: 0x10FFFF}
 				}
 			case "math":
 				if e.Sel.Name == "MaxUint32" {
@@ -436,6 +444,16 @@ func (it *interp) evalCall(e *ast.CallExpr) *value {
 	if w, signed, ok := goIntType(fun); ok && len(e.Args) == 1 {
 		return it.convert(e, it.eval(e.Args[0]), w, signed)
 	}
+	if fun == "string" && len(e.Args) == 1 && !it.emit {
+		// Go: string(r) for a rune r is its UTF-8 encoding, "\uFFFD" for an invalid code point
+		switch v := it.eval(e.Args[0]); {
+		case v.tag == tInt && v.name == "" && v.n >= 0:
+			return &value{tag: tStr, term: fmt.Sprintf("(goStringOfRune %d#32)", v.n)}
+		case v.tag == tBV && v.w == 32 && v.signed:
+			return &value{tag: tStr, term: "(goStringOfRune " + v.term + ")"}
+		}
+		it.fail(e, "string conversion of something that is not a rune")
+	}
 	switch {
 	case fun == "reflect.Kind" && len(e.Args) == 1 && !it.emit:
 		if op := it.eval(e.Args[0]); op.tag == tOperand {
@@ -625,6 +643,46 @@ func (it *interp) exec(s ast.Stmt) bool {
 				it.out = c
 				return false
 			}
+			// `if cond { x = e; … }` without else: the assigned variables become conditional terms
+			if !it.emit && s.Else == nil {
+				type upd struct {
+					name string
+					v    *value
+				}
+				var upds []upd
+				for _, st := range s.Body.List {
+					as, ok := st.(*ast.AssignStmt)
+					if !ok || as.Tok != token.ASSIGN || len(as.Lhs) != 1 || len(as.Rhs) != 1 {
+						it.fail(st, "statement under a run-time condition")
+					}
+					id, ok := as.Lhs[0].(*ast.Ident)
+					if !ok || it.lookup(id.Name) == nil {
+						it.fail(st, "assignment target under a run-time condition")
+					}
+					for _, u := range upds {
+						if u.name == id.Name {
+							it.fail(st, "second assignment under a run-time condition")
+						}
+					}
+					guards := len(it.guards)
+					v := it.eval(as.Rhs[0])
+					if len(it.guards) != guards {
+						it.fail(st, "faulting operation under a run-time condition")
+					}
+					upds = append(upds, upd{id.Name, v})
+				}
+				for _, u := range upds {
+					old := it.lookup(u.name)
+					if old.tag != u.v.tag || (old.tag != tStr && old.tag != tBV && old.tag != tBool) ||
+						(old.tag == tBV && (old.w != u.v.w || old.signed != u.v.signed)) {
+						it.fail(s, "conditional assignment changes the type of %s", u.name)
+					}
+					m := *u.v
+					m.term = fmt.Sprintf("(if %s then %s else %s)", c.term, u.v.term, old.term)
+					it.assign(s, u.name, &m)
+				}
+				return false
+			}
 			it.fail(s, "if on a run-time condition")
 		default:
 			it.fail(s, "if condition")
@@ -643,6 +701,19 @@ func (it *interp) exec(s ast.Stmt) bool {
 			v := it.eval(call.Args[1])
 			if v.tag != tBV || v.w != 64 || !v.signed {
 				it.fail(s, "setInt of a value that is not an int64")
+			}
+			if it.out != nil {
+				it.fail(s, "second output")
+			}
+			it.out = v
+		case fun == "vm.setString" && len(call.Args) == 2 && !it.emit:
+			dst := it.eval(call.Args[0])
+			if dst.tag != tOperand || dst.name != "c" {
+				it.fail(s, "destination of setString")
+			}
+			v := it.eval(call.Args[1])
+			if v.tag != tStr {
+				it.fail(s, "setString of a value that is not a string")
 			}
 			if it.out != nil {
 				it.fail(s, "second output")
@@ -769,7 +840,7 @@ func (it *interp) result() string {
 	for _, g := range it.guards {
 		fmt.Fprintf(&b, "if %s then .error %s else ", g.cond, g.fault)
 	}
-	if it.out.tag == tBool {
+	if it.out.tag == tBool || it.out.tag == tStr {
 		if len(it.guards) > 0 {
 			panic(vmiErr{"shape not recognised: a faulting condition"})
 		}
@@ -865,6 +936,14 @@ inductive VOp
 			}
 			fmt.Fprintf(&b, "  | %s, ra => %s\n", leanKind(k), term)
 		}
+	}
+	// conversions to string
+	for _, cv := range []struct{ goName, lean string }{{"OpConvertInt", "vmConvertIntStr"}, {"OpConvertUint", "vmConvertUintStr"}} {
+		term, err := runVMCase(fset, cases[cv.goName], reflect.String, "")
+		if err != nil {
+			return "", fmt.Errorf("%s to string: %v", cv.goName, err)
+		}
+		fmt.Fprintf(&b, "\n/-- `case %s:` with a destination type of kind String -/\ndef %s (ra : BitVec 64) : Bytes := %s\n", cv.goName, cv.lean, term)
 	}
 	// OpIfInt
 	cc := cases["OpIfInt"]
